@@ -93,6 +93,11 @@ class Shapes:
                         c = self.callee(f, n)
                         if c is not None:
                             self._calls.setdefault(c.qualname, []).append((f, n))
+                        elif isinstance(n.func, ast.Name) and n.func.id == "map" and len(n.args) == 2 and not n.keywords and isinstance(n.args[0], ast.Name):
+                            # `map(g, xs)`: g is called with every element of xs as its first argument
+                            q = self.prog.resolve(f.module, n.args[0].id)
+                            if q and q in self.prog.functions:
+                                self._calls.setdefault(q, []).append((f, n))
         return self._calls.get(g.qualname, [])
 
     def escapes(self, g: FunctionInfo) -> bool:
@@ -103,6 +108,8 @@ class Shapes:
             for n in ast.walk(f.node):
                 if isinstance(n, ast.Name) and n.id == g.name and isinstance(n.ctx, ast.Load):
                     p = parent(n)
+                    if isinstance(p, ast.Call) and isinstance(p.func, ast.Name) and p.func.id == "map" and len(p.args) == 2 and p.args[0] is n and not p.keywords:
+                        continue  # mapped over an iterable: a call per element (see call_sites)
                     if not (isinstance(p, ast.Call) and p.func is n):
                         return True
         for tbl in g.module.assigns.values():
@@ -151,6 +158,12 @@ class Shapes:
                 pos = [x.arg for x in (*a.posonlyargs, *a.args)]
                 out = NEUTRAL
                 for f, c in sites:
+                    if isinstance(c.func, ast.Name) and c.func.id == "map" and c.args and isinstance(c.args[0], ast.Name) and c.args[0].id == g.name:
+                        xs = self.expr(f, c.args[1], c.args[1]) if pos and pos[0] == name else None
+                        out = join(out, xs.elem if xs is not None and isinstance(xs.elem, Shape) else None)
+                        if out is None:
+                            break
+                        continue
                     arg = next((kw.value for kw in c.keywords if kw.arg == name), None)
                     if arg is None and name in pos and pos.index(name) < len(c.args) and not any(isinstance(x, ast.Starred) for x in c.args):
                         arg = c.args[pos.index(name)]
